@@ -24,14 +24,17 @@ PROPS["C06"] = Prop(
 PARAMS["C06"] = {"rule": "exhaustive: for N in 0..=8, every reachable (front, back), directly and via a clone, every operation with every argument 0..=len+2, bracketed by the passive observers; plus seeded random operation sequences (length ≤ 64) over the length lattice. Distinct = distinct scenario lines; non-trivial = at least one operation returned Some(_)."}
 
 PROPS["C01"] = Prop(
-    "C01", ["GA.Props.C01", "GA.Props.C16", "GA.Props.BodyBoxed", "GA.Props.C19"],
+    "C01", ["GA.Props.C01", "GA.Props.C16", "GA.Props.BodyBoxed", "GA.Props.C19", "GA.Props.C10"],
     [Engine("layout", scen.layout, sig=lambda l: l.split()[0]),
      Engine("layout", scen.layout_full, bin="layout_full", sig=lambda l: l.split()[0]),
      Engine("xmute", scen.xmute, sig=lambda l: "xmute"),
      Engine("heap", scen.heap_c01, sig=lambda l: "heap/" + l.split()[2], body_view=True),
      # observe_at: "arrays built field-by-field through ConstDefault, read back through the slice view"; zeroize walks the
      # array as raw memory between two canaries ("never touches ... memory outside the array")
-     Engine("fill", scen.fill, sig=lambda l: "fill/" + l.split()[0])],
+     Engine("fill", scen.fill, sig=lambda l: "fill/" + l.split()[0]),
+     # "viewing the array as a slice or native array never touches ... memory outside the array": the chunk views regroup
+     # a slice into arrays on the strength of the layout identity; a sample runs here, under Miri when the tie is broken
+     Engine("chunks", lambda t, s, p: [x for k, x in enumerate(scen.chunks(t, s, p)) if k % 6 == 0], sig=lambda l: "chunks/" + l.split()[0], miri=60)],
     trusted=[KERNEL, TRANSLATOR, BODYTIE, HARNESS,
              "modelled, not verified: rustc's implementation of repr(C), repr(transparent), [T; 0] and PhantomData layout (the Rust Reference's algorithm is the model); validated against size_of/align_of on the grid"],
     assumptions=["every Rust type has 0 < align and align | size (language guarantee); element layouts are abstracted to (size, align)",
@@ -133,9 +136,13 @@ PROPS["C11"] = Prop(
 PARAMS["C11"] = {"rule": "flatten / unflatten, owned, & and &mut, for every (N, M) in 0..=6 squared (N >= 1 for unflatten) plus (1,1024), (1024,1), (16,64); 5 element kinds incl. zero-sized and drop-tracked; element order, address and extent of the regrouped value/view."}
 
 PROPS["C03"] = Prop(
-    "C03", ["GA.Props.C03", "GA.Props.Body", "GA.Props.BodyCollect", "GA.Props.BodySeq"],
+    "C03", ["GA.Props.C03", "GA.Props.Body", "GA.Props.BodyCollect", "GA.Props.BodySeq", "GA.Props.C17", "GA.Props.BodySerde",
+            "GA.Bridge.Surface.ImplSerde"],
     [Engine("hist", scen.hist, sig=lambda l: "len%d" % min(40, 5 * (l.count(";") // 5)), miri=12),
      Engine("seq", scen.seq, sig=lambda l: l.split()[0] + "/" + l.split()[-1], body_view=True),
+     # construction by deserialization (drop-tracked elements): accepted or rejected, every element read is released once
+     Engine("serde", lambda t, s, p: [x for k, x in enumerate(scen.serde(t, s, p)) if not x.startswith("op=de_script") or k % 4 == 0],
+            sig=lambda l: l.split()[0], body_view=True),
      Engine("regroup", lambda t, s, p: [x for x in scen.regroup(t, s, p) if "kind=tr" in x], sig=lambda l: l.split()[0]),
      Engine("own", scen.own_c08, sig=own_sig, body_view=True),
      Engine("heap", lambda t, s, p: [x for x in scen.heap_c15(t, s, p) if "kind=tr" in x or "kind=z" in x], sig=lambda l: l.split()[0])],
